@@ -47,7 +47,7 @@ KF = "C07-uint64-average-through-float64"
 
 def gen_cases(tier, seed):
     rnd = random.Random(f"C07:{seed}")
-    n = 20000 if tier == "quick" else 300000
+    n = 20000 if tier == "quick" else 1500000
     cases = []
     for k in range(n):
         method = rnd.choice(["average", "average", "average_outside", "majority", "stride"])
